@@ -294,9 +294,17 @@ def converter(F, rep, conv_fn):
             gt = Terms(F, gb, inline_depth=1)
             r = gt.local(0)
             keys = [x for x in subterms(r) if isinstance(x, tuple) and x and x[0] == "agg" and x[1].endswith("RateKey")]
-            ok = bool(keys) and dict(keys[0][3]) == {"code": ("param", 1, gb.local_name(2)), "year": ("param", 2, gb.local_name(3)), "month": ("param", 3, gb.local_name(4))}
-            rep.ob("R2", "cache:key-from-params", ok, "cache key = (currency, year, month) parameters in order" if ok else
-                   f"cache key is {show(keys[0])[:80] if keys else '?'}", gb.loc(), key="R2:cache:key")
+            want = {"code": ("param", 1, gb.local_name(2)), "year": ("param", 2, gb.local_name(3)), "month": ("param", 3, gb.local_name(4))}
+            # EVERY key the lookup builds is the requested one, and the table is consulted once: a second lookup under another
+            # key (the previous month, the same month of another year, a default currency) converts at a rate that is not the
+            # line's own month's instead of failing (seeded change C08-s4)
+            wrong = [k_ for k_ in keys if dict(k_[3]) != want]
+            region_gets = [(hb, t) for hb in [gb] + [F.bodies[cid] for cid in F.children(gb.id)] for _, t in hb.calls()
+                           if parse_callee(t["callee"])[2] in ("get", "get_key_value", "range", "iter", "values", "find") and ("HashMap" in t["callee"] or "BTreeMap" in t["callee"])]
+            ok = bool(keys) and not wrong and len(region_gets) == 1
+            rep.ob("R2", "cache:key-from-params", ok, "cache key = (currency, year, month) parameters in order; one lookup" if ok else
+                   (f"the cache also looks up {show(wrong[0])[:90]}" if wrong else
+                    f"the cache consults its table {len(region_gets)} times" if keys else "cache key is ?"), gb.loc(), key="R2:cache:key")
 
 
 def loader(F, rep):
